@@ -12,6 +12,7 @@ Require Import RV.Model.RwLockCond RV.Proofs.RwLockCondInv RV.Proofs.RwLockCondT
 Require Import RV.Model.RwLockFile RV.Proofs.RwLockFileInv RV.Proofs.RwLockFileThms.
 Require Import RV.Model.LockDict RV.Proofs.LockDictInv RV.Proofs.LockDictThms.
 Require Import RV.Proofs.C11Examples.
+Require Import RV.Model.FlockInode RV.Proofs.FlockInodeProofs.
 Open Scope nat_scope.
 
 (* ================================================================== C11_mutex: readers xor one writer *)
@@ -259,3 +260,29 @@ Theorem C11_witness_eventually_applies :
   not_excluded s_reader_and_requester 1 R /\ mutex (glob s_reader_and_requester) = None.
 Proof. exact ex_cond_eventually_applies. Qed.
 Print Assumptions C11_witness_eventually_applies.
+
+(* ================================================================== C11_cachelock (file-lock back-end)
+   CollectionPartLock._acquire_cache_lock: a fresh pathutils.RwLock on the per-collection lock FILE.  Kernel flock
+   table keyed by the INODE of the open file description (Model/FlockInode.v).  As the code never removes the lock file,
+   contenders for one lock path are served one at a time, for any number of threads, paths and any schedule ... *)
+Theorem C11_cachelock_exclusive :
+  (forall s t u th thu, creachable false s -> cthr_at s t th -> cthr_at s u thu ->
+     cheld_pc (c_pc th) = true -> cheld_pc (c_pc thu) = true -> c_path th = c_path thu -> t = u) /\
+  (forall s k, creachable false s -> count (in_cache_section k) (thr s) <= 1).
+Proof. exact (conj cache_lock_exclusive cache_lock_exclusive_count). Qed.
+Print Assumptions C11_cachelock_exclusive.
+
+(* ... and this depends on it: if the holder unlinked the lock file when leaving, a waiter granted the orphaned inode
+   and a newcomer granted a fresh inode of the same path are inside together (computed witness, 3 threads, 15 steps).
+   The check therefore requires the file operations of _acquire_cache_lock to be exactly {makedirs, open, flock, close}. *)
+Theorem C11_cachelock_unlink_refuted :
+  creachable true unlink_witness /\ (count (in_cache_section 5) (thr unlink_witness) = 2) /\
+  (exists th1 th2, cthr_at unlink_witness 1 th1 /\ cthr_at unlink_witness 2 th2 /\
+                   c_pc th1 = C_Body /\ c_pc th2 = C_Body /\ c_path th1 = c_path th2 /\ c_ino th1 <> c_ino th2).
+Proof. exact cache_lock_unlink_refuted. Qed.
+Print Assumptions C11_cachelock_unlink_refuted.
+
+Theorem C11_witness_cachelock :
+  creachable false nounlink_state /\ (count (in_cache_section 5) (thr nounlink_state) = 1) /\ (cenabled nounlink_state 2 = false).
+Proof. exact cache_lock_witness. Qed.
+Print Assumptions C11_witness_cachelock.
